@@ -63,6 +63,20 @@ type DialEvent struct {
 	Target  string
 }
 
+// SetFailDial installs the per-attempt dial failure policy (race-free against concurrent dials).
+func (t *Tracker) SetFailDial(f func(attempt int) error) {
+	t.mu.Lock()
+	t.FailDial = f
+	t.mu.Unlock()
+}
+
+// SetDialDelay installs the per-attempt delay of successful dials.
+func (t *Tracker) SetDialDelay(f func(attempt int) time.Duration) {
+	t.mu.Lock()
+	t.DialDelay = f
+	t.mu.Unlock()
+}
+
 // Dials returns a copy of the dial log.
 func (t *Tracker) Dials() []DialEvent {
 	t.mu.Lock()
